@@ -274,7 +274,7 @@ theorem exec_post (fault : Option Item) : ∀ f, RecOk W L fault (exec W fault f
 
 /-- ops that keep the contents (imports and items) of every file; timestamps are free -/
 def Op.keepsContent : Op → Prop
-  | .edit _ _ _ => False
+  | .edit _ _ _ _ => False
   | _ => True
 
 theorem step_inv (fuel : Nat) (op : Op) (hk : op.keepsContent) {s : State} (hi : Inv W L s) : Inv W L (step W fuel op s).2 := by
@@ -287,7 +287,7 @@ theorem step_inv (fuel : Nat) (op : Op) (hk : op.keepsContent) {s : State} (hi :
     by_cases hkn : k = n
     · subst hkn; simp only [if_true]; exact hi.1.2 k
     · simp only [hkn, if_false]; exact hi.1.2 k
-  | edit n items t => exact absurd hk (by simp [Op.keepsContent])
+  | edit n imps items t => exact absurd hk (by simp [Op.keepsContent])
   | reloadMeta => exact (loadMetadata_inv W L hi.1).1
 
 theorem run_inv (fuel : Nat) : ∀ (ops : List Op) (s : State), (∀ o ∈ ops, o.keepsContent) → Inv W L s → Inv W L (run W fuel ops s) := by
